@@ -419,8 +419,6 @@ func batchDischarge(u *Unit, obls []*Obligation, dir string, perQueryMs int) {
 	sb.WriteString(u.smtHeader(len(u.cmds)))
 	// per-query budget of the incremental session: a resource limit as well (about perQueryMs of work on an idle core)
 	fmt.Fprintf(&sb, "(set-option :rlimit %d)\n", perQueryMs*2500)
-	// wall-clock safety net per query (a query that does not come back within 15 budgets is left to the race)
-	fmt.Fprintf(&sb, "(set-option :timeout %d)\n", perQueryMs*15)
 	nf := 0
 	// vacuity guard: the entry assumptions (type invariants + requires) must not be contradictory
 	for nf < u.nFactsEntry && nf < len(u.facts) {
@@ -455,7 +453,12 @@ func batchDischarge(u *Unit, obls []*Obligation, dir string, perQueryMs int) {
 	if err := os.WriteFile(file, []byte(sb.String()), 0o666); err != nil {
 		return
 	}
+	// wall-clock safety net for the whole session (a per-query (set-option :timeout) cancels the incremental session of
+	// z3 5.1: "push canceled"); what is not answered in time is left to the per-obligation race
 	total := 4*(perQueryMs/1000)*len(obls) + 60
+	if total > 900 {
+		total = 900
+	}
 	ctx, cancel := context.WithTimeout(context.Background(), time.Duration(total)*time.Second)
 	defer cancel()
 	t0 := time.Now()
